@@ -12,7 +12,7 @@ ENTRY_FORMS = ("all", "all", "target", "list", "set", "type", "group", "subdict"
 
 
 def gen_engine_case(rng, tier, **kw):
-    g = G.gen_spec(rng, tier, **kw)
+    g = G.gen_spec(rng, tier, **dict((k, v) for k, v in kw.items() if k != "host_share"))
     n = len(g["nodes"])
     form = rng.choice(ENTRY_FORMS)
     entry = {"form": form}
@@ -49,6 +49,19 @@ def gen_engine_case(rng, tier, **kw):
             case["late_impls"] = late
     if rng.random() < 0.3:
         case["none_seeds"] = True          # pre-seeded values that are None
+    if rng.random() < 0.4:
+        # dependencies added after the first evaluation with dr.add_dependency (the mechanism registry points use),
+        # here on ordinary components that have an at-least-one group; evaluated again afterwards
+        late = []
+        for i, nd in enumerate(g["nodes"]):
+            if nd["kind"] in ("plain", "component", "combiner", "condition", "rule") and any(isinstance(w, list) for w in nd["written"]) and rng.random() < 0.5:
+                cands = [j for j in range(i) if g["nodes"][j]["part"] == nd["part"] and j not in G.flat_deps(nd)]
+                if cands:
+                    late.append([i, rng.choice(cands)])
+        if late:
+            case["late_deps"] = late
+    if kw.get("host_share") and rng.random() < kw["host_share"]:
+        case["host"] = True               # a HostContext in the broker: datasources arm their timeout alarm
     return case
 
 
@@ -75,12 +88,19 @@ def second_phase(r1):
     case = r1.case
     b = r1.built
     spec = copy.deepcopy(r1.spec)
-    for k, (i, j) in enumerate(case["late_impls"]):
+    for k, (i, j) in enumerate(case.get("late_impls", [])):
         type("L_%s_%d_%d" % (b.tag, i, k), (b.specset,), {"__module__": b.modname, "n%d" % i: b.comps[j]})
         spec["nodes"][i]["impls"].append(j)
         spec["nodes"][j]["kind"] = "impl"
         spec["nodes"][j]["implements"] = True
+    for i, j in case.get("late_deps", []):
+        dr.add_dependency(b.comps[i], b.comps[j])
+        spec["nodes"][i].setdefault("late_deps", []).append(j)
     return execute(case, built=b, spec=spec)
+
+
+def has_second_phase(case):
+    return bool(case.get("late_impls") or case.get("late_deps"))
 
 
 def execute(case, sleep=None, built=None, spec=None):
@@ -132,6 +152,9 @@ def execute(case, sleep=None, built=None, spec=None):
         shared = form != "incremental"
         broker = dr.Broker()
         broker.store_skips = case["store_skips"]
+        if case.get("host"):
+            from insights.core.context import HostContext
+            broker[HostContext] = HostContext()
         r.seeds = {}
         if shared:
             for i, nd in enumerate(nodes):
@@ -178,6 +201,10 @@ def execute(case, sleep=None, built=None, spec=None):
             except Exception as ex:
                 r.raised = ex
         r.events = rec.events
+        import signal
+        r.alarm_left = signal.getitimer(signal.ITIMER_REAL)[0]
+        if r.alarm_left:
+            signal.alarm(0)
         r.store_skips = case["store_skips"] if shared else False
         r.model = G.model(spec, in_graph=in_graph, seeded_values=dict(r.seeds), store_skips=r.store_skips)
     except Exception:
@@ -395,6 +422,10 @@ def oracle_c03(r):
     nodes = spec["nodes"]
     if r.raised is not None:
         return [("exception-escaped-evaluation", {"exc": repr(r.raised)})]
+    if getattr(r, "alarm_left", 0):
+        # a datasource's timeout alarm survived the evaluation: it will hit whatever unrelated code runs next
+        out.append(("timeout-alarm-left-armed-after-evaluation", {"seconds_remaining": r.alarm_left,
+                                                                  "failing_datasources": [i for i, nd in enumerate(nodes) if nd["kind"] in ("datasource", "impl") and nd["outcome"] in G.OUTCOMES_FAULT]}))
     inst, exc, tbs, miss, dup = merged(r.brokers)
     # (2) survivors have exactly the model value (the model simply treats failed components as absent)
     for i, nd in enumerate(nodes):
